@@ -75,6 +75,10 @@ pub fn error_line<E>(w: &Out, e: &E) -> std::io::Result<()> { unimplemented!() }
 #[verifier::external_body]
 #[verifier::reject_recursive_types(R)]
 pub struct StdinFactory<R> { _p: std::marker::PhantomData<R> }
+impl<R> StdinFactory<R> {
+    #[verifier::external_body]
+    pub fn call(&self) -> (r: R) { unimplemented!() }
+}
 }
 
 //@@ include prelude/vit.rs
